@@ -13,6 +13,7 @@ import GoatModel.Locking
 import GoatModel.LockingParams
 import GoatModel.Addr
 import GoatModel.Requests
+import GoatModel.SysTxBytes
 import GoatModel.Comet
 namespace Goat.World
 open Goat.Wire
@@ -358,13 +359,15 @@ def step (w : W) (o : Op) : W × String :=
   | "btc.dequeue" =>
     match Bitcoin.dequeue w.btc with
     | .ok (btc, txs) =>
-      ((if o.str "commit" == "0" then w else { w with btc := btc }), "=> ok txs=" ++ lst (txs.map sysTxText))
+      ((if o.str "commit" == "0" then w else { w with btc := btc }),
+        "=> ok txs=" ++ lst (txs.map sysTxText) ++ " raw=" ++ lst (txs.map (fun t => toHex (SysTxBytes.encodeSysTx t))))
     | r => (w, "=> " ++ res r)
   | "lock.dequeue" =>
     let (lk, rews, unls, n0) := Locking.dequeue w.lock
-    let t1 := rews.zipIdx.map (fun (r, i) => sysTxText (.reward (n0 + i) r.id (fitLeft 20 r.recipient) r.goat r.gas))
-    let t2 := unls.zipIdx.map (fun (u, i) => sysTxText (.unlock (n0 + rews.length + i) u.id (fitLeft 20 u.recipient) (fitLeft 20 u.token) u.amount))
-    ((if o.str "commit" == "0" then w else { w with lock := lk }), "=> ok txs=" ++ lst (t1 ++ t2))
+    let x1 : List Bitcoin.SysTx := rews.zipIdx.map (fun (r, i) => .reward (n0 + i) r.id (fitLeft 20 r.recipient) r.goat r.gas)
+    let x2 : List Bitcoin.SysTx := unls.zipIdx.map (fun (u, i) => .unlock (n0 + rews.length + i) u.id (fitLeft 20 u.recipient) (fitLeft 20 u.token) u.amount)
+    ((if o.str "commit" == "0" then w else { w with lock := lk }),
+      "=> ok txs=" ++ lst ((x1 ++ x2).map sysTxText) ++ " raw=" ++ lst ((x1 ++ x2).map (fun t => toHex (SysTxBytes.encodeSysTx t))))
   | "btc.validateparams" =>
     let p : Bitcoin.Params := { minDeposit := o.nat "min", confirmations := o.nat "conf", taxRate := o.nat "rate", maxTax := o.nat "max", magic := o.bytes "magic" }
     (w, if o.str "net" != "regtest" && o.str "net" != "mainnet" && o.str "net" != "testnet3" && o.str "net" != "signet" then "=> err"
